@@ -296,6 +296,8 @@ def oob_on_empty(shape, ix):
         return False
     try:
         y = torch.zeros(tuple(shape))[index_py(ix)]
+    except TimeoutError:      # a slow box is an infrastructure problem (exit 2), never a verdict
+        raise
     except Exception:  # noqa: BLE001
         return False
     return y.numel() == 0
@@ -350,10 +352,14 @@ def impl_get(L, ix, feats):
     index = index_py(ix)
     try:
         r = L[index]
+    except TimeoutError:      # a slow box is an infrastructure problem (exit 2), never a verdict
+        raise
     except Exception as e:  # noqa: BLE001
         return ["err"], e
     try:
         return ["ok", impl_kind(r)] + td_canon(r, feats), r
+    except TimeoutError:      # a slow box is an infrastructure problem (exit 2), never a verdict
+        raise
     except Exception as e:  # noqa: BLE001  (e.g. a lazy stack left with zero members: every read raises)
         if isinstance(r, LazyStackedTensorDict) and len(r.tensordicts) == 0:
             return ["ok", ["kind", "empty"], ["bs"] + list(r.batch_size)], r
